@@ -136,6 +136,23 @@ def build_case(seed):
                 exp2 = {"copied": can, "bufA": after, "okA": RI.StructView(I, s, {}, after).ok()}
                 script.append("C %d %s %s" % (si, a.hex() or "-", b.hex() or "-"))
                 expect.append({"cmd": "C", "struct": s.name, "kind": kind, "a": a, "b": b, "exp": exp2, "nontrivial": len(a) != len(b)})
+        # every single-bit flip of an Ok buffer (Equals only): a flipped bit that some present field covers
+        # must make the views unequal, one that no field covers must not - whatever the element size
+        for a in oks[:2]:
+            va = RI.StructView(I, s, {}, a)
+            positions = [(i, bit) for i in range(len(a)) for bit in range(8)]
+            if len(positions) > 256:
+                positions = rnd.sample(positions, 256)
+            for i, bit in positions:
+                b = a[:i] + bytes([a[i] ^ (1 << bit)]) + a[i + 1 :]
+                vb = RI.StructView(I, s, {}, b)
+                ob = vb.ok()
+                exp = {"okA": True, "okB": ob, "bufA": a}
+                if ob:
+                    exp["eqAB"] = RI.views_equal(va, vb)
+                    exp["eqBA"] = RI.views_equal(vb, va)
+                script.append("Q %d %s %s" % (si, a.hex() or "-", b.hex() or "-"))
+                expect.append({"cmd": "Q", "struct": s.name, "kind": "bitflip", "a": a, "b": b, "exp": exp, "nontrivial": bool(ob and exp.get("eqAB"))})
         # overlapping windows of one allocation
         for a in oks[:3]:
             size = RI.StructView(I, s, {}, a).size()
